@@ -13,19 +13,20 @@ Import ListNotations.
 Open Scope Z_scope.
 
 (* "every save completes without crashing the interpreter": in every history, a save / to_filename / to_bytes
-   step taken in a world whose live maps are all backed by their files is not a Crash - unless the saver's
-   array is a view of a map of the target that unmap_if_target does not recognise (finding S-C09d,
-   C09_view_of_map_refuted).  A world with an unbacked map is S-C09b's domain (C09_no_crash). *)
-Theorem C09_save_never_crashes : forall g ops w, g_fix g = true ->
-  r_all (fun w o w' x => is_write o = true -> backed g w -> risky_op g w o = false -> x <> OCrash) g w ops.
+   step taken in a world whose live maps are all backed by their files is not a Crash (with fixes 0c06baeb and
+   9bb93cff: data mapped from the target - the map itself or any view of it - are copied before the target is
+   truncated; see C09_unfixed_refuted, C09_view_of_map_refuted).  A world with an unbacked map is S-C09b's
+   domain (C09_no_crash). *)
+Theorem C09_save_never_crashes : forall g ops w, g_fix g = true -> g_viewfix g = true ->
+  r_all (fun w o w' x => is_write o = true -> backed g w -> x <> OCrash) g w ops.
 Proof. exact save_never_crashes. Qed.
 Print Assumptions C09_save_never_crashes.
 
 (* "each file written decodes to the data and affine the image had at that save": at every
    successful save of every history the target holds exactly the value the image denoted just
-   before, with the image's affine, no other file is touched and no image object changes (same side
-   conditions: the world's maps are backed, the save is not the S-C09d case) *)
-Theorem C09_files_decode : forall g ops w, g_fix g = true -> r_all (decodes g) g w ops.
+   before, with the image's affine, no other file is touched and no image object changes (side condition:
+   the world's live maps are backed - else the data read are S-C09b's) *)
+Theorem C09_files_decode : forall g ops w, g_fix g = true -> g_viewfix g = true -> r_all (decodes g) g w ops.
 Proof. exact files_decode. Qed.
 Print Assumptions C09_files_decode.
 
@@ -36,7 +37,7 @@ Print Assumptions C09_files_decode.
    proxy images and files hold a class that fits their names [classes_ok] - true of every initial world and kept
    by every step; uint8 storage of data of both signs is excluded (MGH clips: the FILE does not hold the data). *)
 Theorem C09_usable : forall g ops w,
-  g_fix g = true -> g_reshape_ok g = true -> g_repoint g = true -> names_wf g -> classes_ok g w ->
+  g_fix g = true -> g_viewfix g = true -> g_reshape_ok g = true -> g_repoint g = true -> names_wf g -> classes_ok g w ->
   r_all (usable g) g w ops.
 Proof. exact usable_all. Qed.
 Print Assumptions C09_usable.
@@ -64,7 +65,7 @@ Definition g_one (n : Z) (fx : bool) : cfg := platform_cfg n [mkP Nii false] [0%
 (* the same configuration without the re-pointing of fix 29b7b6ce *)
 Definition g_unrep (n : Z) : cfg :=
   mkCfg n platform_page [mkP Nii false] [0%nat] platform_off platform_foot platform_conv true sc_tab
-        platform_nointer false false true false platform_tclass.
+        platform_nointer false false true false platform_tclass true.
 
 (* the repair matters (finding S-C09c, fixed by 29b7b6ce).  Without it: load a.nii, set_data_dtype(other
    width), save onto a.nii: the file is right, the image is not - narrower: its reads are refused (OSError);
@@ -98,8 +99,8 @@ Qed.
 Print Assumptions C09_unrepaired_refuted.
 
 (* "no step of the history crashes" is false of the faithful model: C09_no_crash_refuted (S-C09b, inherent to
-   mmap) and C09_view_of_map_refuted (S-C09d).  Exactly: [affected g w ops] is a decidable (boolean, computed)
-   predicate on the history - at some step an unrecognised view of a map of the target is saved (S-C09d), or a
+   mmap).  Exactly: [affected g w ops] is a decidable (boolean, computed) predicate on the history - at some
+   step an unrecognised view of a map of the target is saved (impossible since 9bb93cff: S-C09d), or a
    live memory map (a cached get_fdata result, or the array an image was built around) loses its backing because
    a save has made its file shorter than the map (S-C09b).  Every history that is NOT affected has no Crash
    step at all ... *)
@@ -144,20 +145,28 @@ Proof.
 Qed.
 Print Assumptions C09_no_crash_refuted.
 
+(* the same configuration before fix 9bb93cff: unmap_if_target recognises only np.memmap instances with a filename *)
+Definition g_noview (n : Z) : cfg :=
+  mkCfg n platform_page [mkP Nii false] [0%nat] platform_off platform_foot platform_conv true sc_tab
+        platform_nointer false false true true platform_tclass false.
+
 (* a NEW image object of the same class built around an array of a loaded image.  np.asanyarray(img.dataobj) and
-   img.get_fdata() (float64 file) are np.memmap instances: unmap_if_target copies them before the target is
-   truncated, the save onto the mapped file is safe.  np.asarray(img.dataobj) is a base-class VIEW of the map:
-   unmap_if_target does not recognise it - the save onto the mapped file dies (data beyond a page) or writes
-   zeros (finding S-C09d).  And an image whose own array is a map is at the mercy of its file (S-C09b): after a
-   save onto it with a narrower dtype, reading the image dies *)
+   img.get_fdata() (float64 file) are np.memmap instances, np.asarray(img.dataobj) is a base-class VIEW of the map:
+   all are copied before the target is truncated, the save onto the mapped file is safe.  The repair matters
+   (finding S-C09d, fixed by 9bb93cff): before it the view was not recognised and the save died (data beyond a
+   page) or wrote zeros.  An image whose own array is a map stays at the mercy of its file (S-C09b): after a save
+   onto it with a narrower dtype, reading the image dies *)
 Theorem C09_view_of_map_refuted :
   snd (run (g_one 2048 true) (w_one F8) [Load 0 0 true; Wrap 0 1 WAny; Save 1 0; Fdata 1])
     = [ODone; ODone; OSaved 0 (Some 0%nat) F8 0 0; OVal (Some 0%nat)]
   /\ snd (run (g_one 2048 true) (w_one F8) [Load 0 0 true; Wrap 0 1 WFdata; Save 1 0; Fdata 1])
     = [ODone; ODone; OSaved 0 (Some 0%nat) F8 0 0; OVal (Some 0%nat)]
-  /\ snd (run (g_one 2048 true) (w_one F8) [Load 0 0 true; Wrap 0 1 WView; Save 1 0]) = [ODone; ODone; OCrash]
-  /\ snd (run (g_one 24 true) (w_one F8) [Load 0 0 true; Wrap 0 1 WView; Save 1 0]) = [ODone; ODone; OSaved 0 None F8 0 0]
-  /\ affected (g_one 24 true) (w_one F8) [Load 0 0 true; Wrap 0 1 WView; Save 1 0] = true
+  /\ snd (run (g_one 2048 true) (w_one F8) [Load 0 0 true; Wrap 0 1 WView; Save 1 0; Fdata 1])
+    = [ODone; ODone; OSaved 0 (Some 0%nat) F8 0 0; OVal (Some 0%nat)]
+  /\ affected (g_one 2048 true) (w_one F8) [Load 0 0 true; Wrap 0 1 WView; Save 1 0; Fdata 1] = false
+  /\ snd (run (g_noview 2048) (w_one F8) [Load 0 0 true; Wrap 0 1 WView; Save 1 0]) = [ODone; ODone; OCrash]
+  /\ snd (run (g_noview 24) (w_one F8) [Load 0 0 true; Wrap 0 1 WView; Save 1 0]) = [ODone; ODone; OSaved 0 None F8 0 0]
+  /\ affected (g_noview 24) (w_one F8) [Load 0 0 true; Wrap 0 1 WView; Save 1 0] = true
   /\ snd (run (g_one 2048 true) (w_one F8) [Load 0 0 true; Wrap 0 1 WAny; SetDtype 1; Save 1 0; Fdata 1])
     = [ODone; ODone; ODone; OSaved 0 (Some 0%nat) F4 0 0; OCrash]
   /\ affected (g_one 2048 true) (w_one F8) [Load 0 0 true; Wrap 0 1 WAny; SetDtype 1; Save 1 0] = true
@@ -195,7 +204,7 @@ Theorem C09_refusals_and_reshape :
    = (fst (run g w [Load 0 0 true]), [ODone; ORefused EWriter; ORefused EWriter; ORefused ENoSpace]))
   /\
   (let g ok := mkCfg 24 platform_page [mkP Nii false; mkP Mgh false] [0%nat; 1%nat] platform_off platform_foot
-                     platform_conv true sc_tab platform_nointer false true ok true platform_tclass in
+                     platform_conv true sc_tab platform_nointer false true ok true platform_tclass true in
    snd (run (g true) w_scaled [Load 0 0 true; Save 0 1]) = [ODone; OSaved 1 (Some 0%nat) F4 0 0]
    /\ snd (run (g false) w_scaled [Load 0 0 true; Save 0 1]) = [ODone; OSaved 1 None F4 0 0]).
 Proof. vm_compute. repeat split. Qed.
